@@ -56,7 +56,7 @@ let all_entry_points (bs : n list) (packed_hex : string) (rq : cmd option) : str
     ";dreq="; e ~status:false (inflate_disc_request bs);
     ";dresp="; e ~status:false (inflate_disc_response bs);
     ";resp="; e ~status:true (inflate_response rq bs);
-    ";respbs="; e ~status:true (inflate_response rq bs);
+    ";respbs="; e ~status:true (inflate_response_bs rq bs);
     ";frame="; e ~status:true (from_frame rq (sTART_CODE :: bs));
     ";framep="; e ~status:true (reply_of_raw true rq bs);
     ";framepb="; e ~status:true (reply_of_raw true rq bs) ]
@@ -213,6 +213,16 @@ let handle2 (p : string) : (string * string) option =
             (match res with Ok _ -> "ok" | Reject st -> string_of_int (int_of_n st) | Oob -> "OOB")
             (List.length dl) (frames "d" dl) (int_of_n dst) eq,
           "reply:" ^ (match res with Ok _ -> "accepted" | _ -> "rejected"))
+  | ["replyeq"; rq; t1; h1; t2; h2] ->
+    let rqo = if rq = "-" then None else Some (parse_cmd rq) in
+    let mk t h = match String.split_on_char ',' t with
+      | [a; b; c; d] -> { f_data = bytes_of_hex h; f_timing = (((n_of_string a, n_of_string b), n_of_string c), n_of_string d) }
+      | _ -> failwith "bad timing" in
+    let f1 = mk t1 h1 and f2 = mk t2 h2 in
+    let r1 = reply_from_frame rqo f1 and r2 = reply_from_frame rqo f2 in
+    let fe = bool01 (frame_eq f1 f2) ^ bool01 (frame_eq f2 f1) in
+    let re = bool01 (reply_eq r1 r2) ^ bool01 (reply_eq r2 r1) in
+    Some (Printf.sprintf "feq=%s;req=%s;rself=%s" fe re (bool01 (reply_eq r1 r1)), "replyeq:" ^ re)
   | ["eq"; _; x; _; y] ->
     let x = parse_cmd x and y = parse_cmd y in
     let e = cmd_eq_cpp x y in
